@@ -60,9 +60,71 @@ def make_receiver(recipe):
             t.filter(h[2], axis=h[1], inplace=True)
         elif op == "prefilter_copy":
             t = t.filter(h[2], axis=h[1], inplace=False)
+        elif op == "read":
+            # read/export through every accessor that might remember something about the current objects
+            ax = h[1]
+            t.filter(lambda v, i, m: True, axis=ax, inplace=False)
+            if 0 not in t.shape:
+                for i in t.ids(axis=ax):
+                    t.data(i, axis=ax)
+            list(t.iter(axis=ax))
+            t.metadata(axis=ax)
+            str(t)
+        elif op == "transform":
+            ax, kind = h[1], h[2]
+            first = t.ids(axis=ax)[0] if len(t.ids(axis=ax)) else None
+            if kind == "double":
+                t.transform(lambda v, i, m: v * 2, axis=ax, inplace=True)
+            else:
+                t.transform(lambda v, i, m: v * 0 if i == first else v, axis=ax, inplace=True)
+        elif op == "update_ids":
+            t.update_ids(dict(h[2]), axis=h[1], strict=False, inplace=True)
+        elif op == "md_mutate":
+            md = t.metadata(axis=h[1])
+            if md is not None and len(md) > h[2]:
+                md[h[2]][h[3]] = h[4]
+        elif op == "del_md":
+            t.del_metadata(keys=h[2], axis=h[1])
         else:
             raise ValueError(op)
+    if recipe.get("poke") is not None:
+        import random
+        core.poke_layout(t, random.Random(recipe["poke"]))
     return t
+
+
+def make_family(recipe):
+    """the receiver and the other LIVE tables derived from the same source (recipe["family"] = {"kinds": […],
+    "target": k}); without a family: just the receiver"""
+    from biom import Table
+    fam = recipe.get("family")
+    src = make_receiver(recipe)
+    if not fam:
+        return src, []
+    members = []
+    for kind in fam["kinds"]:
+        if kind == "self":
+            d = src
+        elif kind == "copy":
+            d = src.copy()
+        elif kind == "filter_all":
+            d = src.filter(list(src.ids()), inplace=False)
+        elif kind == "filter_pred":
+            d = src.filter(lambda v, i, m: True, axis="observation", inplace=False)
+        elif kind == "sort":
+            d = src.sort_order(list(src.ids())[::-1])
+        elif kind == "transpose":
+            d = src.transpose()
+        elif kind == "ctor":
+            d = Table(src.matrix_data, src.ids(axis="observation"), src.ids(), src.metadata(axis="observation"),
+                      src.metadata(), type=src.type)
+        else:
+            raise ValueError(kind)
+        members.append(d)
+    if "self" not in fam["kinds"]:
+        members.append(src)
+    target = members[fam["target"]]
+    return target, [m for m in members if m is not target]
 
 
 def layout_of(t, axis):
@@ -77,6 +139,21 @@ def layout_of(t, axis):
 # ----------------------------------------------------------------------------- predicates (Python twins)
 def wsum(v):
     return sum((j + 1) * Fraction(float(x)) for j, x in enumerate(v))
+
+
+_PRED_CACHE = {}
+
+
+def shared_pred(desc):
+    """ONE function object per predicate description for the whole process (its log is emptied in place): a result
+    remembered per function object would be served to the next table"""
+    key = json.dumps(desc, sort_keys=True)
+    if key not in _PRED_CACHE:
+        log = []
+        _PRED_CACHE[key] = (make_pred(desc, log), log)
+    fn, log = _PRED_CACHE[key]
+    del log[:]
+    return fn, log
 
 
 def make_pred(desc, log):
@@ -216,27 +293,67 @@ def receiver(recipe, axis, reuse):
     return ent["t"], ent["before"], ent[axis]
 
 
-def run_filter(recipe, axis, keep, form, invert, inplace, mods, rng=None, deep=False):
-    """returns the driver request for one real Table.filter call"""
-    t, before, layout = receiver(recipe, axis, reuse=not inplace)
+def flag(value, style):
+    """the same truth value spelled as the caller might: bool, int, numpy bool"""
+    import numpy as np
+    if style == "int":
+        return int(value)
+    if style == "np":
+        return np.bool_(value)
+    return value
+
+
+def run_filter(recipe, axis, keep, form, invert, inplace, mods, rng=None, deep=False, opts=None):
+    """returns the driver request for one real Table.filter call.  opts: profile (error profile in force during the
+    call), style (spelling of the flags), shared (re-use one predicate function object), positional"""
+    import warnings
+    import biom.err as E
+    opts = opts or {}
+    bystanders = []
+    if recipe.get("family"):
+        t, others = make_family(recipe)
+        before, layout = core.table_obs(t), layout_of(t, axis)
+        bystanders = [{"t": o, "before": core.table_obs(o)} for o in others]
+    else:
+        t, before, layout = receiver(recipe, axis, reuse=not inplace)
     twin = t.copy() if keep["kind"] == "pred" else None
     log = []
     if keep["kind"] == "ids":
         arg = container(form, keep["ids"], rng)
     elif keep["kind"] == "pred":
-        arg = make_pred(keep, log)
+        if opts.get("shared"):
+            arg, log = shared_pred(keep)
+        else:
+            arg = make_pred(keep, log)
     else:
         arg = {"int": 5, "none": None, "callable-object": _Callable()}[keep.get("what", "int")]
+    inv, inp = flag(invert, opts.get("style")), flag(inplace, opts.get("style"))
+    if opts.get("positional"):
+        call = lambda: t.filter(arg, axis, inv, inp)
+    else:
+        call = lambda: t.filter(arg, axis=axis, invert=inv, inplace=inp)
+    profile = opts.get("profile")
     with kernels.use_kernels(mods):
-        res, rt = observe(lambda: t.filter(arg, axis=axis, invert=invert, inplace=inplace))
+        if profile:
+            with warnings.catch_warnings():
+                warnings.simplefilter("ignore")
+                with E.errstate(empty=profile):
+                    res, rt = observe(call)
+        else:
+            res, rt = observe(call)
         after = core.table_obs(t)
         via = None
         if keep["kind"] == "pred":
-            accepted = [c["id"] for c in log if c["ret"]]
+            log_copy = list(log)
+            accepted = [c["id"] for c in log_copy if c["ret"]]
             via = result_obs(lambda: twin.filter(accepted, axis=axis, invert=invert, inplace=False))
+            log = log_copy
         obs = add_lookups({"result": res, "after": after, "calls": log, "via_ids": via}, before, rt, t, deep)
+        if bystanders:
+            obs["bystanders"] = [{"before": b["before"], "after": core.table_obs(b["t"]),
+                                  "lk": lookups(b["t"], b["before"], True)} for b in bystanders]
     return {"op": "filter", "t": before, "layout": layout, "axis": axis, "keep": keep, "invert": invert,
-            "inplace": inplace, "obs": obs}
+            "inplace": inplace, "empty_profile": profile, "obs": obs}
 
 
 class _Callable:
@@ -244,24 +361,65 @@ class _Callable:
         return True
 
 
-def run_remove_empty(recipe, axis, inplace, mods, deep=True):
+def run_remove_empty(recipe, axis, inplace, mods, deep=True, opts=None):
+    import warnings
+    import biom.err as E
+    opts = opts or {}
     t = make_receiver(recipe)
     before = core.table_obs(t)
+    profile = opts.get("profile")          # 'warn' / 'call': the operation must go through unchanged
     with kernels.use_kernels(mods):
-        res, rt = observe(lambda: t.remove_empty(axis=axis, inplace=inplace))
+        if profile:
+            with warnings.catch_warnings():
+                warnings.simplefilter("ignore")
+                with E.errstate(empty=profile):
+                    res, rt = observe(lambda: t.remove_empty(axis=axis, inplace=flag(inplace, opts.get("style"))))
+        elif opts.get("positional"):
+            res, rt = observe(lambda: t.remove_empty(axis, inplace))
+        else:
+            res, rt = observe(lambda: t.remove_empty(axis=axis, inplace=flag(inplace, opts.get("style"))))
         after = core.table_obs(t)
         obs = add_lookups({"result": res, "after": after}, before, rt, t, deep)
     return {"op": "remove_empty", "t": before, "axis": axis, "inplace": inplace, "obs": obs}
 
 
-def run_head(recipe, n, m, mods, deep=True):
+def run_head(recipe, n, m, mods, deep=True, opts=None):
+    """opts.style: how the sizes are passed — positional, keywords, defaults (n and/or m left out = 5)"""
+    opts = opts or {}
     t = make_receiver(recipe)
     before = core.table_obs(t)
+    style = opts.get("style")
+    call = {None: lambda: t.head(n, m), "kw": lambda: t.head(m=m, n=n), "default": lambda: t.head(),
+            "n_only": lambda: t.head(n), "m_only": lambda: t.head(m=m)}[style]
+    if style in ("default", "m_only"):
+        n = 5
+    if style in ("default", "n_only"):
+        m = 5
     with kernels.use_kernels(mods):
-        res, rt = observe(lambda: t.head(n, m))
+        res, rt = observe(call)
         after = core.table_obs(t)
         obs = add_lookups({"result": res, "after": after}, before, rt, t, deep)
     return {"op": "head", "t": before, "n": n, "m": m, "obs": obs}
+
+
+def run_refused(recipe, what, mods):
+    """a request the library must refuse whatever the table: unknown axis names"""
+    t = make_receiver(recipe)
+    before = core.table_obs(t)
+    ids = list(t.ids())
+    call, expect = {
+        "filter-bogus-axis": (lambda: t.filter(ids[:1], axis="bogus"), "UnknownAxis"),
+        "filter-pred-bogus-axis": (lambda: t.filter(lambda v, i, m: True, axis="samples", inplace=True), "UnknownAxis"),
+        "remove-empty-bogus-axis": (lambda: t.remove_empty(axis="obs"), "UnknownAxis"),
+        "remove-empty-bogus-axis-copy": (lambda: t.remove_empty(axis="both", inplace=False), "UnknownAxis"),
+        "head-zero": (lambda: t.head(0, 3), "Index"),
+        "head-negative-m": (lambda: t.head(m=-1), "Index"),
+    }[what]
+    with kernels.use_kernels(mods):
+        res, rt = observe(call)
+        after = core.table_obs(t)
+        obs = add_lookups({"result": res, "after": after}, before, rt, t, True)
+    return {"op": "refused", "t": before, "expect": expect, "what": what, "obs": obs}
 
 
 def parse_tsv_table(text):
@@ -404,14 +562,21 @@ def judge(ctx, req, case, tags, r):
             ctx.count("filter:kept=%s" % ("all" if n1 == n0 else "none" if n1 == 0 else "some"))
 
 
-def do_filter(ctx, batch, impl, mods, recipe, axis, keep, form, invert, inplace, tags=(), rng=None, deep=None):
+def do_filter(ctx, batch, impl, mods, recipe, axis, keep, form, invert, inplace, tags=(), rng=None, deep=None,
+              opts=None):
     case = {"kind": "filter", "recipe": recipe, "axis": axis, "keep": keep, "form": form, "invert": invert,
             "inplace": inplace, "impl": impl}
+    if opts:
+        case["opts"] = opts
+        for k, v in opts.items():
+            ctx.count("filter:opt:%s=%s" % (k, v))
     spec = recipe["spec"]
     ctx.case(case, nontrivial=len(spec["obs"]) * len(spec["samp"]) >= 2)   # journalled BEFORE the code under test runs
     if deep is None:
         deep = ctx.evaluations % 8 == 0
-    req = run_filter(recipe, axis, keep, form, invert, inplace, mods, rng, deep=deep)
+    req = run_filter(recipe, axis, keep, form, invert, inplace, mods, rng, deep=deep, opts=opts)
+    if recipe.get("poke") is not None:
+        ctx.count("receiver:layout-poked")
     lay = req["layout"]
     unsorted = any(lay["indices"][a:b] != sorted(lay["indices"][a:b])
                    for a, b in zip(lay["indptr"], lay["indptr"][1:]))
@@ -421,18 +586,30 @@ def do_filter(ctx, batch, impl, mods, recipe, axis, keep, form, invert, inplace,
     batch.add(req, case, ["impl=" + impl, "form=" + form, "axis=" + axis] + list(tags))
 
 
-def do_remove_empty(ctx, batch, impl, mods, recipe, axis, inplace, tags=()):
+def do_remove_empty(ctx, batch, impl, mods, recipe, axis, inplace, tags=(), opts=None):
     case = {"kind": "remove_empty", "recipe": recipe, "axis": axis, "inplace": inplace, "impl": impl}
+    if opts:
+        case["opts"] = opts
     ctx.case(case)
-    req = run_remove_empty(recipe, axis, inplace, mods)
+    req = run_remove_empty(recipe, axis, inplace, mods, opts=opts)
     ctx.count("remove_empty:axis=%s" % axis)
     batch.add(req, case, ["impl=" + impl, "remove_empty", "axis=" + axis] + list(tags))
 
 
-def do_head(ctx, batch, impl, mods, recipe, n, m, tags=()):
-    case = {"kind": "head", "recipe": recipe, "n": n, "m": m, "impl": impl}
+def do_refused(ctx, batch, impl, mods, recipe, what, tags=()):
+    case = {"kind": "refused", "recipe": recipe, "what": what, "impl": impl}
     ctx.case(case)
-    req = run_head(recipe, n, m, mods)
+    req = run_refused(recipe, what, mods)
+    ctx.count("refused:%s" % what)
+    batch.add(req, case, ["impl=" + impl, "refused", what] + list(tags))
+
+
+def do_head(ctx, batch, impl, mods, recipe, n, m, tags=(), opts=None):
+    case = {"kind": "head", "recipe": recipe, "n": n, "m": m, "impl": impl}
+    if opts:
+        case["opts"] = opts
+    ctx.case(case)
+    req = run_head(recipe, n, m, mods, opts=opts)
     ctx.count("head:%s" % ("refused" if "error" in req["obs"]["result"] else "block"))
     batch.add(req, case, ["impl=" + impl, "head"] + list(tags))
 
@@ -491,6 +668,8 @@ def exhaustive_chunk(ctx, batch, impls, grids, full_product_upto=0):
         for axis in ("observation", "sample"):
             ids = spec["obs"] if axis == "observation" else spec["samp"]
             recipe = {"spec": spec, "route": SMALL_ROUTES[(gi + (axis == "sample")) % len(SMALL_ROUTES)]}
+            if gi % 3 == 0:
+                recipe["poke"] = gi
             for sub in subsets(ids):
                 for invert in (False, True):
                     todo = combos if n * m <= full_product_upto else [combos[rot % len(combos)]]
@@ -520,12 +699,18 @@ def grid_list(ctx, shapes, sample=None):
     return list(enumerate(out))
 
 
+_JOURNAL_BASE = None
+
+
 def _worker(args):
     """one shard of the exhaustive space in a forked process with its own Lean driver"""
     tier, seed, grids, full_upto = args
-    # the per-case journal of ./check (one file write per case) is kept by the main harness process only: four
-    # processes rewriting one file ~70 000 times cost minutes; a shard that dies is reported by collect()
-    os.environ.pop("VERIF_JOURNAL", None)
+    # every shard keeps its own per-case journal; a shard that dies is reported by collect() with its last case
+    global _JOURNAL_BASE
+    if _JOURNAL_BASE is None:
+        _JOURNAL_BASE = os.environ.get("VERIF_JOURNAL", "")
+    if _JOURNAL_BASE:
+        os.environ["VERIF_JOURNAL"] = "%s.shard%d" % (_JOURNAL_BASE, os.getpid())
     ctx = core.Ctx("C08", tier, seed)
     impls = [(n, m) for n, m in kernels.kernel_impls() if m is not None]
     batch = Batch(ctx)
@@ -561,7 +746,13 @@ class Shards:
             try:
                 r = p.get(timeout=900)
             except Exception as e:       # a forked shard died (interpreter crash in native code?) or hung
-                ctx.fail({"kind": "exhaustive-shard", "shard": n, "error": repr(e)},
+                last = []
+                for f in self.journals():
+                    try:
+                        last.append(json.load(open(f)).get("case"))
+                    except Exception:
+                        pass
+                ctx.fail({"kind": "exhaustive-shard", "shard": n, "error": repr(e), "last_cases_of_the_shards": last},
                          "a forked shard of the exhaustive space did not return", ("exhaustive", "shard-lost"))
                 continue
             ctx.evaluations += r["evaluations"]
@@ -581,6 +772,17 @@ class Shards:
         if self.pool is not None:
             self.pool.close()
             self.pool.join()
+        for f in self.journals():
+            try:
+                os.remove(f)
+            except OSError:
+                pass
+
+    @staticmethod
+    def journals():
+        import glob
+        base = os.environ.get("VERIF_JOURNAL")
+        return glob.glob(base + ".shard*") if base else []
 
 
 def random_hist(rng, spec):
@@ -614,6 +816,8 @@ def random_cases(ctx, batch, impls, n_cases, max_dim):
         spec = core.gen_spec(rng, max_n=max_dim, max_m=max_dim,
                              classes=rng.choice([("count",), ("smallcount", "neg"), ("dyadic", "neg", "count")]))
         recipe = {"spec": spec, "route": rng.choice(core.ROUTES + ["perm_sort"]), "hist": random_hist(rng, spec)}
+        if rng.random() < 0.5:
+            recipe["poke"] = rng.randrange(10 ** 6)       # leave the receiver in a random internal layout
         t = make_receiver(recipe)
         axis = rng.choice(["observation", "sample"])
         ids = [str(x) for x in t.ids(axis=axis)]
@@ -654,15 +858,18 @@ def unknown_id_cases(ctx, batch, impls, n_cases, fixed=True):
         ids = [str(x) for x in t.ids(axis=axis)]
         other = [str(x) for x in t.ids(axis="sample" if axis == "observation" else "observation")]
         sub = [i for i in ids if rng.random() < 0.5]
-        # an ID of the other axis, a never-used ID, a near miss
-        bad = rng.choice([other[0] if other else "nope", "nope", ids[0] + " " if ids else "x", ""])
+        # an ID of the other axis, a never-used ID, texts that look like members (extensions, prefixes, case
+        # variants, blanks of existing IDs; longer than every existing ID)
+        tricky = core.tricky_unknown_ids(ids) if ids else []
+        bad = rng.choice([other[0] if other else "nope", "nope", ""] + tricky * 2)
         if bad in ids:
             bad = "nope!"
         sub.insert(rng.randint(0, len(sub)), bad)
         impl, mods = impls[rng.randrange(len(impls))]
+        prof = rng.choice([None, None, "raise", "warn"])
         do_filter(ctx, batch, impl, mods, recipe, axis, {"kind": "ids", "ids": sub},
-                  rng.choice(["list", "tuple", "array", "set"]), rng.random() < 0.5, rng.random() < 0.5,
-                  ("unknown-id",))
+                  rng.choice(["list", "tuple", "array", "strarray", "set"]), rng.random() < 0.5, rng.random() < 0.5,
+                  ("unknown-id",), deep=True, opts={"profile": prof} if prof else None)
     for what in ("int", "none", "callable-object") if fixed else ():
         for impl, mods in impls:
             spec = small_spec([[1, 0, 2], [0, 3, 0]], 1)
@@ -819,6 +1026,8 @@ def chain_cases(ctx, batch, impls, shard=(0, 1)):
                     for step1 in ("prefilter", "prefilter_copy"):
                         recipe = {"spec": spec, "route": ["dense", "csr", "perm_sort"][k % 3],
                                   "hist": [[step1, axis1, kept1]]}
+                        if k % 2:
+                            recipe["poke"] = 1000 + k
                         tags = ("chain", "first=" + axis1, step1)
                         for inplace in (False, True):
                             k += 1
@@ -866,6 +1075,162 @@ def cli_head_cases(ctx, batch):
         batch.flush()
     finally:
         shutil.rmtree(tmpdir, ignore_errors=True)
+
+
+HARD_IDS = ["s1", "s1 ", "S1", "s10", "s1\n", " s1", "\u00e91", "\u65e5\u672c\u8a9e", "s", "s1_long_long_long_long"]
+
+
+def hardening_cases(ctx, batch, impls, n_cases, first=True):
+    """recurring themes of changes that escaped earlier versions: caches keyed by object identity (read, change in
+    place keeping the objects, filter again), live tables derived from one source around an in-place filter,
+    error profiles, every spelling of the arguments, ID texts that look alike, predicate function objects re-used
+    across tables"""
+    rng = ctx.rng
+    # (a) read -> in-place change that keeps the matrix / ID / metadata objects -> filter judged on CURRENT content
+    for c in range(n_cases):
+        spec = core.gen_spec(rng, max_n=4, max_m=5, min_n=2, min_m=2, classes=("smallcount", "count"), alphabet="ascii")
+        if spec["omd"] is None:
+            spec["omd"] = [{"grp": "ab"[i % 2], "n": i} for i in range(len(spec["obs"]))]
+        if spec["smd"] is None:
+            spec["smd"] = [{"grp": "ba"[j % 2]} for j in range(len(spec["samp"]))]
+        axis = rng.choice(["observation", "sample"])
+        ids = spec["obs"] if axis == "observation" else spec["samp"]
+        change = rng.choice(["double", "zero_first", "update_ids", "md_mutate", "del_md"])
+        if change in ("double", "zero_first"):
+            ch = ["transform", axis, change]
+            new_ids = ids
+        elif change == "update_ids":
+            mapping = [[i, i + "_renamed_to_something_longer"] for i in ids[::2]]
+            ch = ["update_ids", axis, mapping]
+            new_ids = [dict(mapping).get(i, i) for i in ids]
+        elif change == "md_mutate":
+            ch = ["md_mutate", axis, 0, "grp", "z"]
+            new_ids = ids
+        else:
+            ch = ["del_md", axis, ["grp"]]
+            new_ids = ids
+        recipe = {"spec": spec, "route": rng.choice(core.ROUTES + ["perm_sort"]),
+                  "hist": [["read", axis], ch] + ([["read", axis]] if c % 3 == 0 else []), "poke": rng.randrange(10 ** 6)}
+        impl, mods = impls[c % len(impls)]
+        inplace, invert = bool(c % 2), bool((c // 2) % 2)
+        tags = ("cache", "change=" + change)
+        k = c % 5
+        if k == 0:
+            do_filter(ctx, batch, impl, mods, recipe, axis, pred_desc({"name": "md_eq", "key": "grp",
+                      "val": rng.choice(["\"z\"", "\"a\""])}), "pred", invert, inplace, tags, deep=True)
+        elif k == 1:
+            do_filter(ctx, batch, impl, mods, recipe, axis, {"kind": "ids", "ids": new_ids[1:][::-1]},
+                      rng.choice(["list", "array", "set"]), invert, inplace, tags, deep=True)
+        elif k == 2:
+            do_filter(ctx, batch, impl, mods, recipe, axis, pred_desc({"name": "sum_gt", "k": "3"}), "pred", invert,
+                      inplace, tags, deep=True, opts={"shared": True})
+        elif k == 3:
+            do_remove_empty(ctx, batch, impl, mods, recipe, rng.choice([axis, "whole"]), inplace, tags)
+        else:
+            # an ID that was renamed away is unknown now
+            old = [i for i in ids if i not in new_ids]
+            do_filter(ctx, batch, impl, mods, recipe, axis, {"kind": "ids", "ids": new_ids[:1] + old[:1]},
+                      "list", invert, inplace, tags, deep=True)
+    # (b) live tables derived from one source; one of them is filtered in place, all the others must stay what
+    # they were and answer through their own lookups
+    kinds_pool = ["self", "copy", "filter_all", "filter_pred", "sort", "transpose", "ctor"]
+    for c in range(n_cases):
+        spec = core.gen_spec(rng, max_n=4, max_m=4, min_n=2, min_m=2, classes=("smallcount",), alphabet="ascii")
+        kinds = ["self"] + rng.sample(kinds_pool[1:], 3)
+        target = c % len(kinds)
+        recipe = {"spec": spec, "route": rng.choice(["dense", "csr", "csc", "perm_sort"]),
+                  "family": {"kinds": kinds, "target": target}, "poke": rng.randrange(10 ** 6)}
+        t, _ = make_family(recipe)
+        axis = rng.choice(["observation", "sample"])
+        ids = [str(x) for x in t.ids(axis=axis)]
+        impl, mods = impls[c % len(impls)]
+        keep = {"kind": "ids", "ids": [i for i in ids if rng.random() < 0.5]} if c % 2 else \
+            pred_desc({"name": "wsum_gt", "k": "3"})
+        do_filter(ctx, batch, impl, mods, recipe, axis, keep, "list" if c % 2 else "pred", bool(c % 3 == 0),
+                  c % 4 != 0, ("family", "target=" + kinds[target]), deep=True)
+    # (c) error profiles in force during the call: 'warn' and 'call' change nothing; under 'raise' a request whose
+    # result has an empty axis raises TableException (the copying call leaves the receiver alone)
+    for c in range(n_cases):
+        spec = core.gen_spec(rng, max_n=3, max_m=4, min_n=1, min_m=1, classes=("smallcount",), alphabet="ascii")
+        recipe = {"spec": spec, "route": rng.choice(core.ROUTES), "poke": rng.randrange(10 ** 6) if c % 2 else None}
+        axis = rng.choice(["observation", "sample"])
+        ids = spec["obs"] if axis == "observation" else spec["samp"]
+        prof = ["raise", "raise", "warn", "call"][c % 4]
+        impl, mods = impls[c % len(impls)]
+        inplace = bool((c // 4) % 2)
+        choice = c % 6
+        if choice == 0:
+            keep, form, invert = {"kind": "ids", "ids": []}, "list", False           # empties the axis
+        elif choice == 1:
+            keep, form, invert = {"kind": "ids", "ids": list(ids)}, "tuple", True   # empties the axis
+        elif choice == 2:
+            keep, form, invert = pred_desc({"name": "false"}), "pred", False
+        elif choice == 3:
+            keep, form, invert = pred_desc({"name": "sum_gt", "k": "2"}), "pred", bool(c % 2)
+        elif choice == 4:
+            keep, form, invert = {"kind": "ids", "ids": ids[:1]}, "array", False
+        else:
+            keep, form, invert = {"kind": "ids", "ids": ids[:1] + [ids[0] + "x"]}, "list", False   # refused first
+        do_filter(ctx, batch, impl, mods, recipe, axis, keep, form, invert, inplace, ("profile=" + prof,), deep=True,
+                  opts={"profile": prof})
+        if prof != "raise" and c % 3 == 0:
+            do_remove_empty(ctx, batch, impl, mods, recipe, rng.choice(["observation", "sample", "whole"]), inplace,
+                            ("profile=" + prof,), opts={"profile": prof})
+    # (d) every spelling of the arguments
+    for c in range(n_cases):
+        spec = core.gen_spec(rng, max_n=7, max_m=7, min_n=1, min_m=1, classes=("smallcount",), alphabet="ascii")
+        recipe = {"spec": spec, "route": rng.choice(core.ROUTES)}
+        axis = rng.choice(["observation", "sample"])
+        ids = spec["obs"] if axis == "observation" else spec["samp"]
+        impl, mods = impls[c % len(impls)]
+        style = ["int", "np", None][c % 3]
+        opts = {"style": style, "positional": bool(c % 2)}
+        do_filter(ctx, batch, impl, mods, recipe, axis, {"kind": "ids", "ids": [i for i in ids if rng.random() < 0.5]},
+                  rng.choice(["list", "dictkeys", "strarray"]), bool(c % 2), bool((c // 2) % 2), ("spelling",), opts=opts)
+        do_head(ctx, batch, impl, mods, recipe, rng.randint(1, 8), rng.randint(1, 8), ("spelling",),
+                opts={"style": ["kw", "default", "n_only", "m_only"][c % 4]})
+        if c % 4 == 0:
+            do_remove_empty(ctx, batch, impl, mods, recipe, rng.choice(["observation", "sample", "whole"]), bool(c % 8),
+                            ("spelling",), opts={"positional": True})
+        if c % 5 == 0:
+            what = ["filter-bogus-axis", "filter-pred-bogus-axis", "remove-empty-bogus-axis",
+                    "remove-empty-bogus-axis-copy", "head-zero", "head-negative-m"][(c // 5) % 6]
+            do_refused(ctx, batch, impl, mods, recipe, what)
+    # (e) ID texts that look alike (blanks, case, prefixes, a trailing newline, non-ASCII): requests naming members
+    # and texts that only look like members; the same on a long axis
+    for c in range(n_cases):
+        k = rng.randint(2, len(HARD_IDS))
+        ids = rng.sample(HARD_IDS, k)
+        other = ["o%d" % i for i in range(rng.randint(1, 3))]
+        axis = "sample" if c % 2 else "observation"
+        spec = {"obs": other if axis == "sample" else ids, "samp": ids if axis == "sample" else other,
+                "rows": None, "omd": None, "smd": None, "type": None}
+        spec["rows"] = [[float(rng.choice([0, 0, 1, 2])) for _ in spec["samp"]] for _ in spec["obs"]]
+        recipe = {"spec": spec, "route": rng.choice(core.ROUTES)}
+        impl, mods = impls[c % len(impls)]
+        sub = [i for i in ids if rng.random() < 0.5]
+        if c % 2:
+            tr = core.tricky_unknown_ids(ids)
+            sub.insert(rng.randint(0, len(sub)), rng.choice(tr))
+        do_filter(ctx, batch, impl, mods, recipe, axis, {"kind": "ids", "ids": sub},
+                  rng.choice(["list", "tuple", "array", "strarray", "set"]), bool(c % 3 == 0), bool(c % 4 < 2),
+                  ("hard-ids",), deep=True)
+    for c in range(max(4, n_cases // 8)):
+        spec = wide_spec(rng, 3, rng.choice([64, 100]), c % 4)
+        ids = spec["samp"]
+        bad = rng.choice(core.tricky_unknown_ids(ids))
+        impl, mods = impls[c % len(impls)]
+        do_filter(ctx, batch, impl, mods, {"spec": spec, "route": "csr"}, "sample",
+                  {"kind": "ids", "ids": [ids[70 % len(ids)], bad, ids[3]]}, ["list", "tuple", "array"][c % 3], False,
+                  bool(c % 2), ("wide", "unknown-id"))
+    # (f) ONE predicate function object used on a series of different tables and axes
+    for d in ({"name": "wsum_gt", "k": "3"}, {"name": "first_nz"}, {"name": "md_eq", "key": "grp", "val": "\"a\""}):
+        for c in range(max(6, n_cases // 6)):
+            spec = core.gen_spec(rng, max_n=4, max_m=4, min_n=1, min_m=1, classes=("smallcount",), alphabet="ascii")
+            impl, mods = impls[c % len(impls)]
+            do_filter(ctx, batch, impl, mods, {"spec": spec, "route": rng.choice(core.ROUTES)},
+                      ["observation", "sample"][c % 2], pred_desc(d), "pred", bool(c % 3 == 0), bool(c % 2),
+                      ("shared-predicate",), opts={"shared": True})
 
 
 # ----------------------------------------------------------------------------- fixed corpus (repaired defects first)
@@ -933,6 +1298,7 @@ def run(ctx):
             cli_head_cases(ctx, batch)
         chain_cases(ctx, batch, impls, ctx.worker)
         wide_cases(ctx, batch, impls, max(40, 160 // wn))
+        hardening_cases(ctx, batch, impls, max(20, 120 // wn))
         random_cases(ctx, batch, impls, 1500 // wn, 6)
     else:
         # ./check shards the thorough tier over WORKERS processes: grid number k belongs to worker k mod n
@@ -948,6 +1314,7 @@ def run(ctx):
             cli_head_cases(ctx, batch)
         chain_cases(ctx, batch, impls, ctx.worker)
         wide_cases(ctx, batch, impls, 1200 // wn)
+        hardening_cases(ctx, batch, impls, 2400 // wn)
         random_cases(ctx, batch, impls, 16000 // wn, 8)
     batch.flush()
     shards.collect()
@@ -968,11 +1335,14 @@ def replay(ctx, rec):
     k = case["kind"]
     if k == "filter":
         do_filter(ctx, batch, impl, mods, case["recipe"], case["axis"], case["keep"], case["form"], case["invert"],
-                  case["inplace"], ("replay",))
+                  case["inplace"], ("replay",), deep=True, opts=case.get("opts"))
     elif k == "remove_empty":
-        do_remove_empty(ctx, batch, impl, mods, case["recipe"], case["axis"], case["inplace"], ("replay",))
+        do_remove_empty(ctx, batch, impl, mods, case["recipe"], case["axis"], case["inplace"], ("replay",),
+                        opts=case.get("opts"))
     elif k == "head":
-        do_head(ctx, batch, impl, mods, case["recipe"], case["n"], case["m"], ("replay",))
+        do_head(ctx, batch, impl, mods, case["recipe"], case["n"], case["m"], ("replay",), opts=case.get("opts"))
+    elif k == "refused":
+        do_refused(ctx, batch, impl, mods, case["recipe"], case["what"], ("replay",))
     elif k == "cli_head":
         import shutil
         import tempfile
